@@ -358,11 +358,21 @@ func c06CRunOnce(c c06CCase, seed int64, st *c06CStats) (msg string) {
 			for i, id := range a.IDs {
 				sp, known := spans[id]
 				if !known {
-					// Known finding "withscores-empty-id-during-vacuum": VSearchWithScores ignores the "not found" answer of
-					// the internal->external id translation; a vacuum that removes the mapping of a (deleted) candidate
-					// between the graph search and the translation yields the empty id. Only that shape is excluded.
-					if id == "" && a.Q.EP == "VSearchWithScores" && overlapsVacuum && verifkit.Known("withscores-empty-id-during-vacuum") {
-						st.Excluded["withscores-empty-id-during-vacuum"]++
+					// Known finding "withscores-empty-id": VSearchWithScores ignores the "not found" answer of the
+					// internal->external id translation. A candidate whose mapping is missing at translation time - removed by a
+					// vacuum that ran between the graph search and the translation, or not yet published by an add / batch
+					// in flight - comes back as the empty id. Only that shape is excluded: the empty id, from VSearchWithScores,
+					// while the call overlaps a vacuum or an add.
+					overlapsAdd := false
+					for _, evs := range events {
+						for _, ev := range evs {
+							if ev.Add && ev.S0 < a.Q1 && ev.S1 > a.Q0 {
+								overlapsAdd = true
+							}
+						}
+					}
+					if id == "" && a.Q.EP == "VSearchWithScores" && (overlapsVacuum || overlapsAdd) && verifkit.Known("withscores-empty-id") {
+						st.Excluded["withscores-empty-id"]++
 						continue
 					}
 					return fmt.Sprintf("%s: result #%d %q is not an id that was ever added", desc, i, id)
